@@ -206,6 +206,24 @@ def _k_far_year(c) -> CaseInfo:
     need(r.success and r.value == ld, "far-year/roundtrip", f"{text!r}")
     t2 = LocalDateTimePattern.extended_iso.format(ld.at_midnight())
     need(t2 == exp + "T00:00:00", "far-year/datetime-text", f"{t2!r}")
+    # every other ISO pattern of the date-time and instant families: same sign / width rules, self round trip
+    from pyoda_time import DateTimeZone
+    from pyoda_time.text import InstantPattern
+
+    ldt = ld.at_midnight()
+    for nm in ("general_iso", "bcl_round_trip", "full_roundtrip_without_calendar"):
+        pat = getattr(LocalDateTimePattern, nm)
+        t3 = pat.format(ldt)
+        need(t3.startswith(exp + "T00:00:00"), f"far-year/datetime.{nm}-text", f"{t3!r}")
+        r3 = pat.parse(t3)
+        need(r3.success and r3.value == ldt, f"far-year/datetime.{nm}-roundtrip", f"{t3!r}")
+    inst = ldt.in_zone_strictly(DateTimeZone.utc).to_instant()
+    for nm, suffix in (("general", "T00:00:00Z"), ("extended_iso", "T00:00:00Z")):
+        pat = getattr(InstantPattern, nm)
+        t4 = pat.format(inst)
+        need(t4 == exp + suffix, f"far-year/instant.{nm}-text", f"{t4!r} vs {exp + suffix!r}")
+        r4 = pat.parse(t4)
+        need(r4.success and r4.value == inst, f"far-year/instant.{nm}-roundtrip", f"{t4!r}")
     return CaseInfo(True, "far_year")
 
 
